@@ -118,6 +118,30 @@ func init() {
 				}
 			}
 		}
+		// which of rel / target / crossorigin the policy lets through by itself × the link options:
+		// what the first pass adds must be what the second pass re-derives
+		for allowMask := 0; allowMask < 8; allowMask++ {
+			for opt := 0; opt < 32; opt++ {
+				names := []string{"href"}
+				for bi, n := range []string{"rel", "target", "crossorigin"} {
+					if allowMask&(1<<bi) != 0 {
+						names = append(names, n)
+					}
+				}
+				ops := []*bmx.Op{{Kind: "AA", Names: names, Scope: "E", ScopeEl: []string{"a", "area", "link"}},
+					{Kind: "US", Names: []string{"http", "https"}}, {Kind: "RU", Flag: true},
+					{Kind: "NF", Flag: opt&1 != 0}, {Kind: "NFQ", Flag: opt&2 != 0}, {Kind: "NR", Flag: opt&4 != 0},
+					{Kind: "NRQ", Flag: opt&8 != 0}, {Kind: "TB", Flag: opt&16 != 0}}
+				if allowMask&4 != 0 {
+					ops = append(ops, &bmx.Op{Kind: "CO", Flag: true})
+				}
+				pid, pol := c.policy(ops)
+				for _, d := range []string{"<a href=\"http://x.com/\">t</a>", "<a href=\"/rel\">t</a>", "<a target=\"_blank\" href=\"/r\">t</a>",
+					"<a rel=\"author\" href=\"http://x.com/\" target=\"_self\">t</a>", "<area href=\"http://x.com/\"><link href=\"http://x.com/\" crossorigin=\"x\">"} {
+					emit(pid, pol, []byte(d))
+				}
+			}
+		}
 		for i := 0; i < c.n/2; {
 			ops := bmx.RandPolicyOpsIdem(c.r)
 			pid, pol := c.policy(ops)
